@@ -1,5 +1,5 @@
 import SamVerif.Lemmas.StdMapOps
-import SamVerif.Model.StdSet
+import SamVerif.Lemmas.StdSet
 import SamVerif.Model.StdList
 /-!
 # C18 — Standard-library collections behave like finite maps, sets and sequences
@@ -265,6 +265,29 @@ theorem insert_history_refines {cmp : K → K → Int} {rank : K → Int} (hc : 
 theorem inv_empty (rank : K → Int) : Inv rank (Tree.empty : Tree K V) := by
   simp [Inv, Bal, Ordered, abs]
 
+/-- **`ops_refine` (maps)**: every finite history, of any length, mixing `insert`, `remove`,
+`filter`, `partition` (either component), `split` (either side) and `map`, over any number of map
+registers that start in states representing finite maps `ms i` (e.g. all `empty`), never panics,
+keeps the representation invariant in every register, and ends in states representing exactly the
+finite maps obtained by running the same history on mathematical finite maps `K → Option V`. -/
+theorem ops_refine {cmp : K → K → Int} {rank : K → Int} (hc : Lawful cmp rank)
+    (ops : List (MOp K V)) (regs : Nat → Tree K V) (ms : Nat → K → Option V)
+    (h : ∀ i, Rel rank (regs i) (ms i)) :
+    ∃ regs', runOps cmp regs ops = some regs' ∧ ∀ i, Rel rank (regs' i) (specOps rank ms ops i) :=
+  ops_refine_lemma hc ops regs ms h
+
+/-- lookups after any such history from all-empty registers equal the specification's lookups -/
+theorem ops_refine_get {cmp : K → K → Int} {rank : K → Int} (hc : Lawful cmp rank)
+    (ops : List (MOp K V)) :
+    ∃ regs', runOps cmp (fun _ => (Tree.empty : Tree K V)) ops = some regs' ∧
+      ∀ i q, get cmp (regs' i) q = specOps rank (fun _ _ => none) ops i q := by
+  obtain ⟨regs', e, h⟩ := ops_refine hc ops (fun _ => Tree.empty) (fun _ _ => none) (fun _ => rel_empty rank)
+  refine ⟨regs', e, fun i q => ?_⟩
+  obtain ⟨_, o, g⟩ := h i
+  apply Option.ext
+  intro w
+  rw [get_refines hc (regs' i) o q w, g q w]
+
 /-! ### The boxed `Int` compare: a total order exactly on windows of diameter < 2³¹ -/
 
 /-- keys inside a window of diameter < 2³¹ -/
@@ -367,20 +390,99 @@ witnesses are regression inputs in corpus/C18 now. -/
 namespace SamVerif.StdSet
 open SamVerif.StdMap (boxedCompare)
 
-theorem set_size_refines {E : Type} (t : STree E) : size t = ((abs t).length : Int) := by
-  induction t with
-  | empty => rfl
-  | leaf v => rfl
-  | node h v l r ihl ihr => simp [size, abs, ihl, ihr]; omega
+variable {E : Type} [DecidableEq E]
 
-theorem set_elements_refines {E : Type} (t : STree E) : elements t = abs t := by
-  have h : ∀ (t : STree E) (acc : List E), elementsHelper t acc = abs t ++ acc := by
-    intro t
-    induction t with
-    | empty => intro acc; rfl
-    | leaf v => intro acc; rfl
-    | node h v l r ihl ihr => intro acc; simp [elementsHelper, abs, ihl, ihr]
-  simp [elements, h]
+theorem set_size_refines (t : STree E) : size t = ((abs t).length : Int) := size_refines t
+theorem set_elements_refines (t : STree E) : elements t = abs t := elements_refines t
+theorem set_min_refines (t : STree E) : min t = (abs t).head? := min_refines t
+theorem set_max_refines (t : STree E) : max t = (abs t).getLast? := max_refines t
+theorem set_fold_refines {A : Type} (f : A → E → A) (t : STree E) (a : A) :
+    fold f t a = (abs t).foldl f a := fold_refines f t a
+theorem set_forAll_refines (f : E → Bool) (t : STree E) : forAll f t = (abs t).all f :=
+  forAll_refines f t
+theorem set_exists_refines (f : E → Bool) (t : STree E) : «exists» f t = (abs t).any f :=
+  exists_refines f t
+
+/-- `contains` is membership. -/
+theorem set_contains_refines {cmp : E → E → Int} {rank : E → Int} (hc : Lawful cmp rank) (t : STree E)
+    (hi : Inv rank t) (x : E) : contains cmp t x = true ↔ x ∈ abs t := contains_spec hc t hi.2 x
+
+/-- `insert` / `remove` never panic, keep the invariant, and are `s ∪ {x}` / `s \ {x}`. -/
+theorem set_insert_refines {cmp : E → E → Int} {rank : E → Int} (hc : Lawful cmp rank) (t : STree E)
+    (x : E) (hi : Inv rank t) :
+    ∃ t', insert cmp t x = some t' ∧ Inv rank t' ∧ ∀ p, p ∈ abs t' ↔ (p = x ∨ p ∈ abs t) :=
+  inv_insert hc t x hi
+
+theorem set_remove_refines {cmp : E → E → Int} {rank : E → Int} (hc : Lawful cmp rank) (t : STree E)
+    (x : E) (hi : Inv rank t) :
+    ∃ t', remove cmp t x = some t' ∧ Inv rank t' ∧ ∀ p, p ∈ abs t' ↔ (p ∈ abs t ∧ p ≠ x) := by
+  obtain ⟨t', e, b, o, m, _⟩ := remove_spec hc t x hi.1 hi.2
+  exact ⟨t', e, ⟨b, o⟩, m⟩
+
+/-- `join` of any two balanced sets: no panic, balanced, enumeration `l ++ v :: r`. -/
+theorem set_join_refines (l r : STree E) (v : E) (hl : Bal l) (hr : Bal r) :
+    ∃ t, join l v r = some t ∧ Bal t ∧ abs t = abs l ++ v :: abs r := by
+  obtain ⟨t, e, b, a, _⟩ := join_spec l r v hl hr
+  exact ⟨t, e, b, a⟩
+
+theorem set_concat_refines (t1 t2 : STree E) (h1 : Bal t1) (h2 : Bal t2) :
+    ∃ t, concat t1 t2 = some t ∧ Bal t ∧ abs t = abs t1 ++ abs t2 := concat_spec t1 t2 h1 h2
+
+theorem set_split_refines {cmp : E → E → Int} {rank : E → Int} (hc : Lawful cmp rank) (t : STree E)
+    (key : E) (hi : Inv rank t) :
+    ∃ l pres r, split cmp t key = some (l, pres, r) ∧ Inv rank l ∧ Inv rank r ∧
+      (∀ p, p ∈ abs t ↔ (p ∈ abs l ∨ (pres = true ∧ p = key) ∨ p ∈ abs r)) ∧
+      (∀ p ∈ abs l, rank p < rank key) ∧ (∀ p ∈ abs r, rank key < rank p) := split_inv hc t key hi
+
+theorem set_filter_refines (f : E → Bool) (t : STree E) (hb : Bal t) :
+    ∃ t', filter f t = some t' ∧ Bal t' ∧ abs t' = (abs t).filter f := filter_spec f t hb
+
+theorem set_partition_refines (f : E → Bool) (t : STree E) (hb : Bal t) :
+    ∃ a b, partition f t = some (a, b) ∧ Bal a ∧ Bal b ∧
+      abs a = (abs t).filter f ∧ abs b = (abs t).filter (fun p => !f p) := partition_spec f t hb
+
+/-- **`union`** (total: fuel above the sum of the sizes always suffices), **`intersection`**,
+**`diff`**: no panic, invariant kept, and the result is the set union / intersection / difference. -/
+theorem set_union_refines {cmp : E → E → Int} {rank : E → Int} (hc : Lawful cmp rank) (fuel : Nat)
+    (a b : STree E) (ha : Inv rank a) (hb : Inv rank b) (hf : (abs a).length + (abs b).length < fuel) :
+    ∃ t, union cmp fuel a b = some (some t) ∧ Inv rank t ∧ ∀ p, p ∈ abs t ↔ (p ∈ abs a ∨ p ∈ abs b) :=
+  union_spec hc fuel a b ha hb hf
+
+theorem set_intersection_refines {cmp : E → E → Int} {rank : E → Int} (hc : Lawful cmp rank)
+    (a b : STree E) (ha : Inv rank a) (hb : Inv rank b) :
+    ∃ t, intersection cmp a b = some t ∧ Inv rank t ∧ ∀ p, p ∈ abs t ↔ (p ∈ abs a ∧ p ∈ abs b) :=
+  intersection_spec hc a b ha hb
+
+theorem set_diff_refines {cmp : E → E → Int} {rank : E → Int} (hc : Lawful cmp rank)
+    (a b : STree E) (ha : Inv rank a) (hb : Inv rank b) :
+    ∃ t, diff cmp a b = some t ∧ Inv rank t ∧ ∀ p, p ∈ abs t ↔ (p ∈ abs a ∧ p ∉ abs b) :=
+  diff_spec hc a b ha hb
+
+/-- conversion from lists -/
+theorem set_fromList_refines {cmp : E → E → Int} {rank : E → Int} (hc : Lawful cmp rank) (xs : List E) :
+    ∃ t, fromList cmp xs .empty = some t ∧ Inv rank t ∧ ∀ p, p ∈ abs t ↔ p ∈ xs := by
+  obtain ⟨t, e, i, m⟩ := fromList_spec hc xs .empty ⟨by simp [Bal], by simp [Ordered, abs]⟩
+  exact ⟨t, e, i, fun p => by rw [m]; simp [abs]⟩
+
+/-- **`ops_refine` (sets)**: every finite history mixing `insert`, `remove`, `union`,
+`intersection`, `diff`, `filter`, `partition`, `split`, `fromList` over any number of set registers
+never panics (and `union` never runs out of its internally computed fuel), keeps the invariant and
+ends in states representing exactly the sets obtained by the same history on mathematical sets. -/
+theorem set_ops_refine {cmp : E → E → Int} {rank : E → Int} (hc : Lawful cmp rank)
+    (ops : List (SOp E)) (regs : Nat → STree E) (ss : Nat → E → Prop)
+    (h : ∀ i, SRel rank (regs i) (ss i)) :
+    ∃ regs', runOps cmp regs ops = some regs' ∧ ∀ i, SRel rank (regs' i) (specOps rank ss ops i) :=
+  ops_refine_lemma hc ops regs ss h
+
+/-- the boxed compare is a lawful order for sets on every window of diameter < 2³¹ -/
+theorem set_boxedCompare_lawful (lo : Int) :
+    Lawful (fun (a b : SamVerif.StdMap.Window lo) => boxedCompare a.1 b.1) (fun a => a.1) := by
+  have h := SamVerif.StdMap.boxedCompare_lawful lo
+  exact ⟨h.lt, h.eq, h.gt⟩
+
+example : SRel (fun (a : Int) => a) (STree.empty : STree Int) (fun _ => False) := srel_empty _
+example : fromList boxedCompare [3, 1, 2, 5, 4] (.empty : STree Int) =
+    some (.node 3 3 (.node 2 2 (.leaf 1) .empty) (.node 2 5 (.leaf 4) .empty)) := by decide
 
 end SamVerif.StdSet
 
